@@ -256,8 +256,15 @@ def run_creator_request(out, drv, rng, creator, cc, cells, wire_cells, bbox, sta
     pre, = drv.run([{"kind": "creator", "cells": wire_cells, "bbox": enc(bbox), "days": days}])
     # the bbox list OBJECT is shared by all requests of the history that name the same box (a settings dict re-used by the caller)
     shared = bbox_obj if bbox_obj is not None else [float(b) for b in bbox]
-    vc = QcVariableConfig({"variable": var, "bbox": shared, "start_time": start, "end_time": end,
-                           "tests": {"gross_range_test": exprs}})
+    # ... and a repeated request re-uses its QcVariableConfig OBJECT
+    cache = getattr(creator, "_verif_vc_cache", None)
+    if cache is None:
+        cache = creator._verif_vc_cache = {}
+    ck = (var, id(shared), start, id(exprs))
+    if ck not in cache:
+        cache[ck] = QcVariableConfig({"variable": var, "bbox": shared, "start_time": start, "end_time": end,
+                                      "tests": {"gross_range_test": exprs}})
+    vc = cache[ck]
     if pre["stats"] is None or pre["stats"]["mean"][0] == 0:
         # nothing inside: the real code starts padding the box, which is outside the property — the request is made all
         # the same (it is part of the history the later requests must not depend on) but not judged
